@@ -38,6 +38,9 @@ def run(ctx):
     if not ctx.build():
         return
     rng = ctx.rng
+    # when the UPD unit of the harness (private update functions of Solver) does not compile against the tree: whole calls through
+    # the public entry point, all 8 variants, compared bit for bit with the model, are the tie instead (DESIGN.md 4.5)
+    ctx.fallback_e2e = lambda: [gen.gen_e2e(ctx.rng.fork('fb%d' % k), 950000 + k, maxit_max=25, r_max=2)[0] for k in range(ctx.budget(160, 2000))]
     cases, metas = [], {}
     for k in range(ctx.budget(1200, 40000)):
         line, m = gen.gen_upd(rng.fork('u%d' % k), k, wtype='i')
